@@ -163,8 +163,9 @@ def run_case(case):
                     any(repr([fd['name'].strip() for fd in r['fields']]) in msg for r in res):
                 mech = 'field_name_outer_blank_stripped'
             elif kind_ == 'row_keys' and any(repr(sorted([fd['name'] for fd in r['fields']] +
-                                                         [n.strip() for n in blank_names
-                                                          if n in [fd['name'] for fd in r['fields']]])) in msg for r in res):
+                                                         sorted({n.strip() for n in blank_names
+                                                                 if n in [fd['name'] for fd in r['fields']]}))) in msg
+                                           for r in res):
                 mech = 'field_name_outer_blank_stripped'
         viol.append({'kind': kind_, 'mech': mech, 'format': fmt, 'msg': msg, 'config': cfg})
     if not dumped.ok:
